@@ -41,6 +41,10 @@ type config struct {
 	// dependency packages whose small functions may be inlined (bodies built);
 	// global, so that an obligation is the same in every property run
 	BuildDeps []string `json:"build_deps"`
+	// AnalysisPkgs: the /repo packages that are loaded and built for EVERY property, so that
+	// whole-program facts (effect summaries, the interior-reference analysis) and the set of
+	// contracts in force do not depend on which property is being checked
+	AnalysisPkgs []string `json:"analysis_pkgs"`
 }
 
 type knownFinding struct {
@@ -205,9 +209,12 @@ func generate(cfg *config, prop string) (*genOutput, error) {
 		return nil, fmt.Errorf("property %s not configured", prop)
 	}
 	t0 := time.Now()
-	prog, err := vc.Load(repoDir, pc.Packages, filepath.Join(verifDir, "contracts/external"))
+	prog, err := vc.Load(repoDir, unionPkgs(pc.Packages, cfg.AnalysisPkgs), filepath.Join(verifDir, "contracts/external"))
 	if err != nil {
 		return nil, err
+	}
+	for _, d := range cfg.AnalysisPkgs {
+		prog.BuildPkg(d)
 	}
 	out := &genOutput{genErrs: map[string]string{}}
 	out.loadS = time.Since(t0).Seconds()
@@ -318,7 +325,20 @@ func solveAll(g *genOutput, obls []*vc.Obligation, timeout time.Duration) []oblR
 				if o.Cover {
 					// vacuity guard: quantifier-free relaxation, short time-out;
 					// only "unsat" (nothing reaches this point) counts as failure
-					res[i] = oblResult{o, smt.Solve(g.relaxed+g.revealRelaxed(o)+o.Relaxed, 3*time.Second)}
+					r := smt.Solve(g.relaxed+g.revealRelaxed(o)+o.Relaxed, 3*time.Second)
+					if r.Status != "unsat" {
+						// the relaxation drops the quantified axioms and facts, so a
+						// contradiction that needs them (e.g. a range fact against the
+						// reference model) is only visible in the full script
+						full := g.prelude + g.revealText(o) + o.Script
+						if cr, ok := cacheGet(full, 3*time.Second); ok {
+							r = cr
+						} else {
+							r = smt.Solve(full, 3*time.Second)
+							cachePut(full, 3*time.Second, r)
+						}
+					}
+					res[i] = oblResult{o, r}
 					continue
 				}
 				rev := g.revealText(o)
@@ -471,7 +491,7 @@ func cmdBaseline(args []string) int {
 				if ok && r.R.Time <= *maxT {
 					names = append(names, r.O.Name)
 					tag = "ok"
-				} else if (r.O.Kind == "post" || r.O.Kind == "pre" || r.O.Kind == "inv.entry" || r.O.Kind == "inv.step") && !vc.SkipClauses[r.O.Name] {
+				} else if (r.O.Kind == "post" || r.O.Kind == "pre" || r.O.Kind == "inv.entry" || r.O.Kind == "inv.step" || r.O.Kind == "gpost" || r.O.Kind == "ginv.entry" || r.O.Kind == "ginv.step") && !vc.SkipClauses[r.O.Name] {
 					// an unproved postcondition must not be assumed by callers, an
 					// unproved precondition invalidates the callee's postconditions
 					// at that call, an unproved invariant must not be assumed at
@@ -837,6 +857,9 @@ func writeEvidence(prop, tier string, seed int, pc *propCfg, baseline []string, 
 		"Go integers are mathematical Int with exact wrap-around on every + - * and conversion (no overflow assumption)",
 		"memory model: typed heap components (Burstall), fresh allocation, no unsafe aliasing between distinct Go types",
 		"external-frame: dependency functions without a contract modify only memory reachable from their pointer/slice arguments",
+		"interior references: a pointer/slice is assumed not to point into an inline struct/array field of another object unless the whole-program may-be-interior analysis (analysis_pkgs of properties.cfg.json) says it may; dependency functions are assumed not to return such references into /repo objects and callers outside analysis_pkgs to pass none",
+		"postconditions are partial-correctness statements: they hold for executions in which no run-time check of the function fails (safety.* obligations that are not in the baseline are open panics, not proved absent)",
+		"a function of a dependency package that is modelled by ghost state and has no contract havocs that package's ghosts",
 		"termination is not proved",
 		"SMT solvers z3 5.1.0 / cvc5 1.0 / z3 4.8.12 are trusted")
 	var mustFail []string
@@ -894,6 +917,20 @@ func dropLemmas(prelude, label string) string {
 	return b.String()
 }
 
+func unionPkgs(a, b []string) []string {
+	seen := map[string]bool{}
+	var out []string
+	for _, l := range [][]string{a, b} {
+		for _, p := range l {
+			if !seen[p] {
+				seen[p] = true
+				out = append(out, p)
+			}
+		}
+	}
+	return out
+}
+
 func cmdModset(args []string) int {
 	fs := flag.NewFlagSet("modset", flag.ExitOnError)
 	prop := fs.String("property", "", "property id (selects the packages)")
@@ -905,12 +942,21 @@ func cmdModset(args []string) int {
 		return 2
 	}
 	pc := cfg.Properties[*prop]
-	prog, err := vc.Load(repoDir, pc.Packages, filepath.Join(verifDir, "contracts/external"))
+	prog, err := vc.Load(repoDir, unionPkgs(pc.Packages, cfg.AnalysisPkgs), filepath.Join(verifDir, "contracts/external"))
 	if err != nil {
 		fmt.Fprintln(os.Stderr, "ERROR", err)
 		return 2
 	}
+	for _, d := range cfg.AnalysisPkgs {
+		prog.BuildPkg(d)
+	}
 	u := vc.NewUniverse()
+	if *fn == "taint" {
+		for _, l := range prog.TaintReport(u) {
+			fmt.Println(l)
+		}
+		return 0
+	}
 	for _, d := range append(append([]string{}, cfg.BuildDeps...), pc.BuildDeps...) {
 		prog.BuildPkg(d)
 	}
